@@ -110,6 +110,12 @@ impl Powers {
             }
             btree_map::Entry::Occupied(mut e) => {
                 *e.get_mut() += power;
+
+                // Powers which cancel out must not linger as a zero entry,
+                // otherwise `J/N` and `m` would not compare as equal.
+                if *e.get() == 0 {
+                    e.remove();
+                }
             }
         }
     }
